@@ -196,7 +196,7 @@ class C16(flow.Spec):
 
     def cases(self, ctx, seed, tier, round_no=0):
         rng = random.Random(seed * 1000003 + round_no)
-        n = 400 if tier == "quick" else 6000
+        n = 2000 if tier == "quick" else 30000
         cs = []
         for i in range(n):
             cs.append(gen_rb_case(rng, i, rng.choice([10, 30, 60, 120])))
